@@ -206,6 +206,12 @@ def r1(ctx: Ctx) -> None:
         cur = st[0] if st else None
         while cur is not None:
             cnd = cur[1]
+            if cnd[0] == "cmp" and cnd[1] in ("sne", "notin") and not cur[3]:
+                # 'elif key != K: refuse' with nothing to do for K itself: the refusing arm is the final else
+                pos = mk_not(cnd)
+                seen |= set(pos[3][1]) if pos[1] == "in" and pos[2] == kv else ({pos[2] if pos[3] == kv else pos[3]} if kv in (pos[2], pos[3]) else set())
+                ok = len(cur[2]) >= 1 and (cur[2][0] == ("assert", K_FALSE) or cur[2][0][0] == "raise") and seen == known
+                break
             if cnd[0] == "cmp" and cnd[1] == "in" and cnd[2] == kv:
                 seen |= set(cnd[3][1])
             elif cnd[0] == "cmp" and cnd[1] == "seq" and kv in (cnd[2], cnd[3]):
